@@ -1,7 +1,7 @@
 (* Executable model of _compressed_segmentation.decode_chunk_into,
    _decode_channel_into, _unpack_encoded_values and of
-   CompressedSegmentationEncoder.decode, including every point where the
-   Python code can raise.  Offsets are Python integers (Z): the table extent
+   CompressedSegmentationEncoder.decode (as of /repo commit a6dbfd3), including
+   every point where the Python code can raise.  Offsets are Python integers (Z): the table extent
    formula can produce a negative count.  Also RawChunkEncoder. *)
 From Coq Require Import NArith ZArith List Bool Lia.
 From NGS Require Import Val Ints Words Arr4 CSegEncode.
@@ -69,17 +69,15 @@ Definition decode_block (dt : dtype) (cbuf : list N) (B : N) (k : N) : outcome (
 Definition decode_channel (dt : dtype) (cbuf : list N) (B nblk : N) : outcome (list (list N)) :=
   mapM (decode_block dt cbuf B) (range nblk).
 
-(* the loop of decode_chunk_into over (offset, next_offset) pairs *)
+(* the loop of decode_chunk_into over the channel offsets: each channel reads
+   buf[offset:] (it is not confined to the next channel's offset) *)
 Fixpoint decode_channels (dt : dtype) (buf : list N) (B nblk : N) (offs : list Z)
   : outcome (list (list (list N))) :=
   match offs with
   | [] => Ok []
   | off :: rest =>
       if zlen buf <? off + 8 * Z.of_N nblk then FormatErr else
-      let cbuf := match rest with
-                  | [] => py_slice buf off (zlen buf)            (* buf[offset:None] *)
-                  | next :: _ => py_slice buf off next
-                  end in
+      let cbuf := py_slice buf off (zlen buf) in                   (* buf[offset:] *)
       bind (decode_channel dt cbuf B nblk) (fun blocks =>
       bind (decode_channels dt buf B nblk rest) (fun more => Ok (blocks :: more)))
   end.
@@ -104,18 +102,3 @@ Definition cseg_decode (dt : dtype) (nc : N) (g : geom) (cx cy cz : N) (buf : li
   if zlen buf <? Z.of_N (nc * (4 + 8 * nblk)) then FormatErr else
   bind (decode_channels dt buf B nblk (channel_offsets buf nc)) (fun chans =>
   Ok (assemble nc cz cy cx g chans)).
-
-(* The region where the decoder is known to escape with struct.error: the
-   channel buffer buf[offset:next_offset] is cut short by the next channel's
-   offset.  guard = true excludes it. *)
-Fixpoint offsets_guard (nblk : Z) (offs : list Z) : bool :=
-  match offs with
-  | off :: ((next :: _) as rest) => (off + 8 * nblk <=? next) && offsets_guard nblk rest
-  | _ => true
-  end.
-
-Definition cseg_decode_guard (nc : N) (g : geom) (cx cy cz : N) (buf : list N) : bool :=
-  let nblk := (cdiv cx (g_bx g) * cdiv cy (g_by g) * cdiv cz (g_bz g))%N in
-  negb ((g_bx g =? 0) || (g_by g =? 0) || (g_bz g =? 0))%N &&
-  ((zlen buf <? Z.of_N (nc * (4 + 8 * nblk))) ||
-   offsets_guard (Z.of_N nblk) (channel_offsets buf nc)).
